@@ -53,6 +53,9 @@ def norm(v):
         return ("date", v.year, v.month, v.day)
     if isinstance(v, Decimal):
         return ("dec", str(v))
+    if isinstance(v, float):
+        # a cell holding 0.1 answers Decimal('0.1'), one holding 3.0 answers 3
+        return int(v) if v.is_integer() else ("dec", repr(v))
     if isinstance(v, list):
         return [norm(i) for i in v]
     if isinstance(v, tuple):
@@ -119,8 +122,8 @@ def cell_xml(spec, string_attr=True) -> str:
     if isinstance(v, bool):
         b = "true" if v else "false"
         return f'<{tag}{attrs} office:value-type="boolean" office:boolean-value="{b}"><text:p>{b}</text:p></{tag}>'
-    if isinstance(v, int):
-        return f'<{tag}{attrs} office:value-type="float" office:value="{v}"><text:p>{v}</text:p></{tag}>'
+    if isinstance(v, (int, float)):
+        return f'<{tag}{attrs} office:value-type="float" office:value="{v!r}"><text:p>{v!r}</text:p></{tag}>'
     sv = f' office:string-value="{_esc(v)}"' if string_attr else ""
     return f'<{tag}{attrs} office:value-type="string"{sv}><text:p>{_esc(v)}</text:p></{tag}>'
 
@@ -377,6 +380,12 @@ def observe_table(t, plan) -> dict:
         o["rowv"] = norm(t.get_row_values(plan["row"]))
     o["styles"] = [[c.style for c in row] for row in t.get_cells()]
     o["colstyles"] = [c.style for c in t.get_columns()]
+    if plan.get("neg") and w > 0 and h > 0:
+        # the same questions through count-from-the-end coordinates (relative to the TABLE's width / height)
+        cx, ry = plan.get("col", 0) % w, plan.get("row", 0) % h
+        o["neg"] = (norm(t.get_column_values(cx - w)), norm(t.get_row_values(ry - h)), norm(t.get_value((cx - w, ry - h))),
+                    norm(t.get_cell((cx - w, ry - h)).get_value()), t.is_column_empty(cx - w), t.is_row_empty(ry - h),
+                    norm([c.get_value() if c is not None else None for c in t.get_column_cells(cx - w)]))
     return o
 
 
@@ -411,6 +420,13 @@ def observe_grid(g: Grid, plan) -> dict:
         o["rowv"] = norm(g.row_values_padded(plan["row"]))
     o["styles"] = g.styles()
     o["colstyles"] = [c[0] for c in g.cols]
+    if plan.get("neg") and w > 0 and h > 0:
+        cx, ry = plan.get("col", 0) % w, plan.get("row", 0) % h
+        colv = g.column_values(cx)
+        rowv = g.row_values_padded(ry)
+        o["neg"] = (norm(colv), norm(rowv), norm(g.cell(cx, ry).value), norm(g.cell(cx, ry).value),
+                    all(g.cell(cx, y).is_empty(False) for y in range(h)), all(g.cell(x, ry).is_empty(False) for x in range(len(g.rows[ry]))),
+                    norm(colv))
     return o
 
 
@@ -609,7 +625,10 @@ def apply_sut(sut: TableSUT, op, aux):
             if e["e"] == "rep":
                 cell.repeated = e["k"]
             elif e["e"] == "set_value":
-                cell.set_value(e["v"])
+                if e.get("via") == "attr":
+                    cell.value = e["v"]  # the property setter: same result as set_value()
+                else:
+                    cell.set_value(e["v"])
             elif e["e"] == "style":
                 cell.style = e["s"]
         aux["k"] = cell.repeated or 1
